@@ -73,6 +73,12 @@ func leafEdits() []leafEdit {
 		{"minItems added", J{"type": "array", "items": J{"type": "integer"}}, J{"type": "array", "items": J{"type": "integer"}, "minItems": 2}, A{int64(1)}, false},
 		{"minItems raised", J{"type": "array", "items": J{"type": "integer"}, "minItems": 1}, J{"type": "array", "items": J{"type": "integer"}, "minItems": 3}, A{int64(1), int64(2)}, false},
 		{"uniqueItems added", J{"type": "array", "items": J{"type": "integer"}}, J{"type": "array", "items": J{"type": "integer"}, "uniqueItems": true}, A{int64(1), int64(1)}, false},
+		// two keywords of one bound change together (exclusivity flips while the bound moves)
+		{"maximum lowered and made inclusive", J{"type": "integer", "maximum": 9, "exclusiveMaximum": true}, J{"type": "integer", "maximum": 5, "exclusiveMaximum": false}, int64(7), false},
+		{"maximum lowered and made exclusive", J{"type": "integer", "maximum": 9}, J{"type": "integer", "maximum": 5, "exclusiveMaximum": true}, int64(5), false},
+		{"minimum raised and made inclusive", J{"type": "integer", "minimum": 1, "exclusiveMinimum": true}, J{"type": "integer", "minimum": 5}, int64(3), false},
+		{"minimum raised and made exclusive", J{"type": "integer", "minimum": 1}, J{"type": "integer", "minimum": 5, "exclusiveMinimum": true}, int64(5), false},
+		{"both bounds narrowed", J{"type": "integer", "minimum": 1, "maximum": 9}, J{"type": "integer", "minimum": 3, "maximum": 7}, int64(8), false},
 	}
 }
 
@@ -542,6 +548,27 @@ func NeutralEdits() []EditPair {
 		return a, b
 	}
 	txt := []string{"first text", "second text"}
+	{
+		// two differences with the same code and text whose locations are prefix-related
+		a, b := mk(func(d J, v int) {
+			at(d, "paths", "/a", "get")["description"] = txt[v]
+			addParam(d, "/a", "get", J{"in": "query", "name": "q", "type": "string", "description": txt[v]})
+			at(d, "paths", "/a", "get", "responses", "200")["description"] = txt[v]
+		})
+		add("operation + parameter + response descriptions changed alike", a, b)
+	}
+	{
+		a, b := mk(func(d J, v int) {
+			inner := J{"type": "object", "properties": J{"x": J{"type": "string"}}}
+			outer := J{"type": "object", "properties": J{"o": inner, "x": J{"type": "string"}}}
+			if v == 1 {
+				inner["required"] = A{"x"}
+				outer["required"] = A{"x"}
+			}
+			addParam(d, "/p", "post", J{"in": "body", "name": "body", "required": true, "schema": outer})
+		})
+		add("body property and a like-named sub-property both become required", a, b)
+	}
 	{
 		a, b := mk(func(d J, v int) { at(d, "paths", "/a", "get")["description"] = txt[v] })
 		add("operation description changed", a, b)
